@@ -44,6 +44,26 @@ Theorem C01_emit_order_init_refuted :
   run 10 (emit_order init_order_witness) = (Normal, [VInt 200; VInt 100; VInt 2]).
 Proof. exact init_order_refuted. Qed.
 
+(* expression switch with fallthrough: the model the switch matrix of the check is compared with.
+   Dropping the fallthrough of a default clause is harmless when no default clause ends with one, and for
+   a clause that is last; it is NOT harmless in general (the seeded defect seeded/C01) *)
+Theorem C01_switch_drop_default_fallthrough_harmless_without :
+  forall cs, forallb (fun c => match c with (None, _, true) => false | _ => true end) cs = true ->
+    forall v, switch_exec (drop_default_fallthrough cs) v = switch_exec cs v.
+Proof. intros cs H v. rewrite run_from_drop_no_default_fall; auto. Qed.
+Theorem C01_switch_last_clause_fallthrough_irrelevant :
+  forall pre o m f, run_from (pre ++ [(o, m, f)]) = run_from (pre ++ [(o, m, false)]).
+Proof. exact run_from_last_fall_irrelevant. Qed.
+Theorem C01_switch_drop_default_fallthrough_refuted :
+  exists cs v, switch_exec (drop_default_fallthrough cs) v <> switch_exec cs v.
+Proof. exact drop_default_fallthrough_refuted. Qed.
+Definition ex_switch : list clause :=
+  [(Some 0%Z, 10%N, true); (None, 20%N, true); (Some 1%Z, 30%N, false); (Some 2%Z, 40%N, false)].
+Example C01_example_switch :
+  switch_exec ex_switch 0%Z = [10; 20; 30]%N /\ switch_exec ex_switch 7%Z = [20; 30]%N /\
+  switch_exec ex_switch 2%Z = [40]%N /\ switch_exec (drop_default_fallthrough ex_switch) 7%Z = [20]%N.
+Proof. repeat split; vm_compute; reflexivity. Qed.
+
 (* ---- non-vacuity: defer/recover, a labelled loop, a struct with grouped fields, parentheses ---- *)
 Definition ex_prog : prog :=
   [ DStruct 1 [([1; 2], VInt 0); ([3], VStr [])];
@@ -77,4 +97,7 @@ Print Assumptions C01_exec_lower.
 Print Assumptions C01_emit_order_identity.
 Print Assumptions C01_emit_order_preserves.
 Print Assumptions C01_emit_order_permutation.
+Print Assumptions C01_switch_drop_default_fallthrough_harmless_without.
+Print Assumptions C01_switch_last_clause_fallthrough_irrelevant.
+Print Assumptions C01_switch_drop_default_fallthrough_refuted.
 Print Assumptions C01_emit_order_init_refuted.
